@@ -217,6 +217,8 @@ def run(ctx, tier):
     # phase 1h: real-valued arguments handed over as 0-d numpy arrays (an element picked with track[i, ...], an xarray value):
     # the answer is that of the scalar, the caller's array is left untouched, and asking twice gives the same
     nz = 0
+    pool0d = {}
+    bases0d = []
     if np is not None:
         for i in order[:3000]:
             fn, a, k, want = rec[i]
@@ -234,6 +236,7 @@ def run(ctx, tier):
             alt2 = probe.call(fn, *arrs, **_copy(k))
             nz += 1
             ctx.ev(3)
+            bases0d.append((i, idxs, repr(_norm(base)), base[0]))
             if alt[0] == "exc" and alt[1] in ("TypeError",) and base[0] == "ok":
                 continue      # a function may refuse array arguments; not judged
             changed = any(not np.array_equal(arrs[j], kp, equal_nan=True) for j, kp in zip(idxs, keep))
@@ -241,6 +244,21 @@ def run(ctx, tier):
                 ctx.violation("zero-dim-array-argument-mishandled:" + _name(fn).split(".")[-1], function=_name(fn), args=repr(a)[:300],
                               with_scalar=repr(_norm(base))[:200], with_0d_array=repr(_norm(alt))[:200], second_call=repr(_norm(alt2))[:200],
                               callers_array_modified=bool(changed), monitor="replay", case=None)
+        # ... and ONE array object per argument slot that the caller refills in place before every call (a preallocated cell
+        # updated with cell[...] = value), call after call: being the same object says nothing about holding the same value
+        for i, idxs, base_repr, base_kind in bases0d:
+            fn, a, k, want = rec[i]
+            pooled = list(_copy(a))
+            for j in idxs:
+                cell = pool0d.setdefault((j, str(np.asarray(a[j]).dtype)), np.zeros((), dtype=np.asarray(a[j]).dtype))
+                cell[...] = a[j]
+                pooled[j] = cell
+            alt3 = probe.call(fn, *pooled, **_copy(k))
+            ctx.ev()
+            if not (alt3[0] == "exc" and alt3[1] in ("TypeError",) and base_kind == "ok") and repr(_norm(alt3)) != base_repr:
+                ctx.violation("zero-dim-array-argument-mishandled:" + _name(fn).split(".")[-1], function=_name(fn), args=repr(a)[:300],
+                              with_scalar=base_repr[:200], with_reused_0d_array_refilled_in_place=repr(_norm(alt3))[:200],
+                              monitor="replay", case=None)
     ctx.hit("replay_zero_dim_array_calls", nz)
     # phase 1m: what a call hands back belongs to the caller: clearing / overwriting a returned list, dict or array in place and
     # asking again gives the recorded answer (a cached or module-level object handed out by reference does not)
@@ -286,6 +304,57 @@ def run(ctx, tier):
             ctx.violation("result-differs-inside-an-exception-handler:" + _name(fn).split(".")[-1], function=_name(fn), args=repr(a)[:300],
                           recorded=want[:300], inside_except_KeyError=got[:300], monitor="replay", case=None)
     ctx.hit("replay_inside_an_exception_handler", nxh)
+    # phase 1n: the call is RE-ENTERED in its own thread: between two lines of the library's code a signal handler (a status timer),
+    # a finaliser or a profiling hook of the host program decodes another message and returns; the interrupted call then carries on
+    # and must still bring back its own answer (a per-thread scratch record is private to the thread, not to the call).  A line
+    # trace function is where Python itself runs such handlers: between two bytecode lines, in the same thread.
+    nre = [0, 0]
+    if "reenter" not in skip:
+        from . import core as _core
+        prefix = os.path.realpath(os.path.join(_core.REPO, "src")) + os.sep
+        by_fn = {}
+        for idx_, r_ in enumerate(rec):
+            by_fn.setdefault(id(r_[0]), []).append(idx_)
+        st = {"inner": None, "left": 0, "bad": None}
+
+        def _line(frame, event, arg):
+            if event == "line" and st["left"] > 0 and rng.random() < 0.15:
+                st["left"] -= 1
+                f2, a2, k2, w2 = st["inner"]
+                g2 = repr(probe.call(f2, *_copy(a2), **_copy(k2)))     # untraced: tracing is off while a trace function runs
+                nre[1] += 1
+                if g2 != w2 and st["bad"] is None:
+                    st["bad"] = (f2, a2, w2, g2)
+            return _line
+
+        def _glob(frame, event, arg):
+            if event == "call" and os.path.realpath(frame.f_code.co_filename).startswith(prefix):
+                return _line
+            return None
+
+        for i in order[:2500]:
+            fn, a, k, want = rec[i]
+            same = by_fn[id(fn)]
+            j = rng.choice(same) if rng.random() < 0.6 else rng.randrange(len(rec))
+            st.update(inner=rec[j], left=4, bad=None)
+            aa, kk = _copy(a), _copy(k)
+            sys.settrace(_glob)
+            try:
+                got = repr(probe.call(fn, *aa, **kk))
+            finally:
+                sys.settrace(None)
+            nre[0] += 1
+            ctx.ev()
+            if got != want:
+                ctx.violation("result-differs-when-re-entered-in-the-same-thread:" + _name(fn).split(".")[-1], function=_name(fn), args=repr(a)[:300],
+                              recorded=want[:300], interrupted_by=[_name(rec[j][0]), repr(rec[j][1])[:200]], observed=got[:300],
+                              monitor="replay", case=None)
+            elif st["bad"] is not None:
+                f2, a2, w2, g2 = st["bad"]
+                ctx.violation("result-differs-when-re-entered-in-the-same-thread:" + _name(f2).split(".")[-1], function=_name(f2), args=repr(a2)[:300],
+                              recorded=w2[:300], called_while=[_name(fn), repr(a)[:200]], observed=g2[:300], monitor="replay", case=None)
+    ctx.hit("replay_re_entered_calls", nre[0])
+    ctx.hit("replay_re_entries_injected", nre[1])
     # phase 1l: the host application logs at DEBUG level (root logger and every pyModeS logger, a handler attached): tracing is
     # for reading, it does not change what a function returns
     import logging as _lg
